@@ -14,6 +14,7 @@ pub use std::thread_local as tls;
 
 pub mod block;
 pub mod cli;
+pub mod degen;
 pub mod engine;
 pub mod gen;
 pub mod lpelem;
